@@ -137,6 +137,11 @@ Step ==
   /\ drift' = IF Trace[l].ev = "ext" /\ ~ExtAgrees(Trace[l]) THEN Append(drift, l) ELSE drift
   /\ LET e == Trace[l] IN
      IF e.ev = "ext" THEN UNCHANGED <<g, ok, fails>>
+     ELSE IF e.ev = "emptyprobe" THEN
+       \* C05 at length 0: RevComp, Reverse and Clone of an empty sequence / alignment do nothing but set the strand
+       /\ UNCHANGED <<g, ok>>
+       /\ fails' = IF e.panic = "" /\ e.len = 0 /\ e.strands = <<-1, 1, 0>> THEN fails
+                   ELSE Append(fails, <<l, "empty " \o e.kind \o ": " \o (IF e.panic # "" THEN "panic: " \o e.panic ELSE "length or strand after RevComp, RevComp, Reverse")>>)
      ELSE IF e.ev = "reset" THEN
        /\ g' = [kind |-> e.kind, alpha |-> e.alpha, rows |-> RowsOf(e.rows)]
        /\ ok' = TRUE
